@@ -18,6 +18,7 @@
                        lexeme is followed by text its C admits
      expect items ln   the tokens of the lexemes, each on line ln + (number of LF before it) *)
 From P2 Require Import Base.Prelude Lex.Token Lex.Tok Lex.TokProofs.
+From P2 Require Syn.Ast Syn.Parse Syn.TextToAst Syn.Lower Sem.Syntax Sem.Ref Sem.FromText Lex.TextProofs.
 Local Open Scope N_scope.
 
 (* ---- C04, tokenizer half: for every rune string and configuration the scanner terminates within
@@ -144,6 +145,64 @@ Proof. exact comfort_bookkeeping. Qed.
 Theorem no_comfort_no_implicit_mul : forall cfg, c_comfort cfg = false -> forall t, this_ty cfg t = tInvalid.
 Proof. exact no_comfort_bookkeeping. Qed.
 
+(* ================================================================ from the text to the AST and to the value
+   Compositions with the parser model (Syn/Parse.v; full grammar: Syn/Full*.v, Syn/TextToAst.v), the lowering to the
+   semantic AST (Syn/Lower.v), the reference semantics (Sem/Ref.v) and the generator model (Sem/Gen.v,
+   Sem/FromText.v run_text) for the value configuration value.New(). *)
+
+(* two well-formed layouts of the same lexemes give the same parse result - the same AST or the same error -
+   for every tokenizer configuration, every parser configuration and every identifier chain *)
+Theorem C15_layout_ast_invariant :
+  forall (tc : tcfg) (pc : P2.Syn.Parse.pcfg) (ids : P2.Syn.Parse.idents) items items',
+  ops_ok tc -> wf_layout tc tInvalid false items -> wf_layout tc tInvalid false items' ->
+  lexeme_tokens items = lexeme_tokens items' ->
+  P2.Syn.Parse.parse_tokens pc ids (tokenize tc (layout_text items))
+  = P2.Syn.Parse.parse_tokens pc ids (tokenize tc (layout_text items')).
+Proof. exact P2.Syn.TextToAst.text_layout_irrelevant. Qed.
+
+(* ... and the same outcome of Generate + Eval in the models (value configuration): value, error, or panic *)
+Theorem C15_layout_meaning_invariant : forall tc known fuel argnames items items' args,
+  ops_ok tc -> wf_layout tc tInvalid false items -> wf_layout tc tInvalid false items' ->
+  lexeme_tokens items = lexeme_tokens items' ->
+  P2.Sem.FromText.run_text tc known fuel argnames (layout_text items) args
+  = P2.Sem.FromText.run_text tc known fuel argnames (layout_text items') args.
+Proof. exact P2.Sem.FromText.text_layout_irrelevant_run. Qed.
+
+(* every NUL-free string (any code points, quotes, backslashes, line breaks, alias runes): its literal spelling
+   tokenizes to one string token with that content, parses to a constant, lowers to the string value, the reference
+   semantics evaluates it to that string and so does the generated function *)
+Theorem C15_string_literal_value : forall tc known fuel argnames s, ops_ok tc -> no_nul s ->
+  tokenize tc (string_literal s) = [mkTok tString s 1] /\
+  P2.Syn.Parse.parse_tokens P2.Syn.Lower.value_pcfg (P2.Syn.Lower.value_ids argnames) (tokenize tc (string_literal s))
+    = P2.Syn.Parse.POk (P2.Syn.Ast.AConst (115 :: 58 :: s)) /\
+  P2.Sem.FromText.text_ast tc argnames (string_literal s) = Some (P2.Sem.Syntax.AConst (P2.Sem.Syntax.VStr s)) /\
+  (forall env, P2.Sem.Ref.eval known (S fuel) env (P2.Sem.Syntax.AConst (P2.Sem.Syntax.VStr s))
+               = P2.Sem.Syntax.Ok (P2.Sem.Syntax.VStr s)) /\
+  P2.Sem.FromText.run_text tc known (S fuel) [] (string_literal s) [] = P2.Sem.Syntax.Ok (P2.Sem.Syntax.VStr s).
+Proof. exact P2.Lex.TextProofs.string_literal_value_lemma. Qed.
+
+(* a quoted identifier denotes the name it contains: in  let 'c'=a;'c'  (argument a; ASCII letter/digit classes,
+   comments on or off) the two quoted identifiers are the tokens tIdent c, the text parses to Let c a c, and the
+   reference semantics returns the value of a - for every content c without NUL, quote and line break, whether or
+   not c spells a keyword, an operator, a number, a built-in function or the argument itself *)
+Theorem C15_quoted_ident_denotes_content : forall cm known fuel c v, ~ In 0 c -> ~ In 39 c -> ~ In 10 c ->
+  let tc := P2.Lex.TextProofs.value_tcfg_ascii cm in
+  let text := [108; 101; 116; 32] ++ quoted_ident c ++ [61; 97; 59] ++ quoted_ident c in
+  map strip_line (tokenize tc text)
+    = [(tKeyWord, [108; 101; 116]); (tIdent, c); (tOperate, [61]); (tIdent, [97]); (tSemicolon, [59]); (tIdent, c)] /\
+  P2.Syn.Parse.parse_tokens P2.Syn.Lower.value_pcfg (P2.Syn.Lower.value_ids [[97]]) (tokenize tc text)
+    = P2.Syn.Parse.POk (P2.Syn.Ast.ALet c (P2.Syn.Ast.AIdent [97] false) (P2.Syn.Ast.AIdent c false)) /\
+  P2.Sem.FromText.text_ast tc [[97]] text
+    = Some (P2.Sem.Syntax.ALet c (P2.Sem.Syntax.AIdent [97]) (P2.Sem.Syntax.AIdent c)) /\
+  P2.Sem.Ref.eval known (S (S fuel)) [([97], v)]
+    (P2.Sem.Syntax.ALet c (P2.Sem.Syntax.AIdent [97]) (P2.Sem.Syntax.AIdent c)) = P2.Sem.Syntax.Ok v.
+Proof. exact P2.Lex.TextProofs.quoted_ident_denotes_lemma. Qed.
+
+(* Error lines: the parser model reports errors without position (Syn/Parse.v: PErr carries neither the offending
+   token nor its index), so "the line of a syntax error is the line of the offending token" has no statement here
+   beyond line_is_start_line for the tokens themselves; it is checked on the implementation by the error-line
+   family of the correspondence run. *)
+
 (* ---------------------------------------------------------------- non-vacuity *)
 (* a configuration with comments and comfort mode; letters a-z, digits 0-9 *)
 Definition cfgE : tcfg :=
@@ -211,6 +270,18 @@ Example malformed_input_tokens :
           mkTok tOperate [42] 1; mkTok tIdent [100] 1].
 Proof. vm_compute. reflexivity. Qed.
 
+(* the composed theorems on concrete inputs, by computation of the models: the string  "\"  LF •  and the quoted keyword 'if' *)
+Example string_value_computed :
+  P2.Sem.FromText.run_text (P2.Lex.TextProofs.value_tcfg_ascii true) [] 5 [] (string_literal [34; 92; 10; 8226]) []
+  = P2.Sem.Syntax.Ok (P2.Sem.Syntax.VStr [34; 92; 10; 8226]).
+Proof. vm_compute. reflexivity. Qed.
+
+Example quoted_keyword_binding_computed :
+  P2.Sem.FromText.run_text (P2.Lex.TextProofs.value_tcfg_ascii true) [] 9 [[97]]
+    ([108; 101; 116; 32] ++ quoted_ident [105; 102] ++ [61; 97; 59] ++ quoted_ident [105; 102]) [P2.Sem.Syntax.VInt 7]
+  = P2.Sem.Syntax.Ok (P2.Sem.Syntax.VInt 7).
+Proof. vm_compute. reflexivity. Qed.
+
 Print Assumptions tokenize_total.
 Print Assumptions layout_tokens_and_lines.
 Print Assumptions layout_invariance.
@@ -234,3 +305,7 @@ Print Assumptions scan_stops_at_separator.
 Print Assumptions operator_stops_at_separator.
 Print Assumptions comfort_implicit_mul.
 Print Assumptions no_comfort_no_implicit_mul.
+Print Assumptions C15_layout_ast_invariant.
+Print Assumptions C15_layout_meaning_invariant.
+Print Assumptions C15_string_literal_value.
+Print Assumptions C15_quoted_ident_denotes_content.
